@@ -597,6 +597,7 @@ func (fv *FuncVC) ghostType(g *GhostDef) types.Type {
 
 // applyAssigns havocs the locations named by an assigns clause.
 func (fv *FuncVC) applyAssigns(env *SpecEnv, st *State, items []AssignsItem, callee *ssa.Function, isCB bool) {
+	items = fv.expandAssigns(items, env.pkg)
 	for _, it := range items {
 		switch {
 		case it.All:
@@ -996,4 +997,46 @@ func sortedKeys(m map[string]bool) []string {
 	}
 	sort.Strings(out)
 	return out
+}
+
+// expandAssigns replaces effects(T) items by the assigns of the typed callback contract of T.
+func (fv *FuncVC) expandAssigns(items []AssignsItem, pkg *types.Package) []AssignsItem {
+	var out []AssignsItem
+	for _, it := range items {
+		if it.Callback == "" {
+			out = append(out, it)
+			continue
+		}
+		t, err := fv.v.ResolveType(it.Callback, pkg)
+		if err != nil {
+			engineErr("assigns %s: %v", it.Text, err)
+		}
+		n, ok := types.Unalias(t).(*types.Named)
+		if !ok {
+			engineErr("assigns %s: not a named function type", it.Text)
+		}
+		c := fv.v.ifaceCon[n.Obj().Pkg().Path()+"."+n.Obj().Name()+".call"]
+		if c == nil {
+			engineErr("assigns %s: no callback contract for %s", it.Text, it.Callback)
+		}
+		for _, ci := range c.Assigns {
+			if ci.TypeT != "" {
+				// qualify the type relative to the callback's package
+				ci2 := ci
+				ci2.TypeT = fv.qualifyTypeText(ci.TypeT, n.Obj().Pkg())
+				out = append(out, ci2)
+			} else {
+				out = append(out, ci)
+			}
+		}
+	}
+	return out
+}
+
+// qualifyTypeText makes a type name usable from any package: "run" (in package runs) -> "runs.run"
+func (fv *FuncVC) qualifyTypeText(text string, from *types.Package) string {
+	if strings.Contains(text, ".") {
+		return text
+	}
+	return from.Name() + "." + text
 }
